@@ -441,7 +441,11 @@ def stepLine (st : State) (w : List String) : State × String :=
       let w : World := { files := [(bytesOfString "in.cfg", some text)] }
       -- every number is parsed / formatted with the radix the thread sees between override and restore
       let (r, l1) := withCLocale l fun radix =>
-        let r := read w Config.init src readFuel
+        let r := match entry with
+          | "failstream" => readFailingStream w Config.init text readFuel
+          | "badfile" => readWithFailingFile w Config.init (.file (bytesOfString "/proc/self/mem")) (bytesOfString "/proc/self/mem") [] readFuel
+          | "missing" => read w Config.init (.file (bytesOfString "no-such-file.cfg")) readFuel
+          | _ => read w Config.init src readFuel
         (r, applyRadix radix (r.cfg.write Generated.FLOAT_BUF_SIZE))
       let (rd, out) := r
       let (r2, l2) := withCLocale l1 fun radix =>
@@ -540,6 +544,42 @@ def stepLine (st : State) (w : List String) : State × String :=
        s!"{res} {showLog r.dtorLog} {if (ledger r.events).balanced && named then "stream-ok" else "stream-bad"}")
     | none => (st, "bad-op")
   -- END C1011
+  -- C16: library-owned strings passed back in; strings handed out (the model has value semantics:
+  -- passing a string back is an ordinary assignment of the current value, a held string never changes)
+  | ["set_string_self", p] =>
+    match parsePath p with
+    | some path =>
+      match c.root.get? path with
+      | some n =>
+        let op := Op.setString path (if n.ty == T_STRING then n.sval else none)
+        let (st', o) := step st op
+        (st', showOut op o)
+      | none => (st, "bad-op")
+    | none => (st, "bad-op")
+  | ["set_include_dir_self"] =>
+    let op := Op.setIncludeDir c.includeDir
+    let (st', o) := step st op
+    (st', showOut op o)
+  | ["add_self", p, ty] =>
+    match parsePath p, ty.toInt? with
+    | some path, some ty =>
+      match c.root.get? path, path.isEmpty with
+      | some n, false =>
+        let op := Op.add path.dropLast n.name ty
+        let (st', o) := step st op
+        (st', showOut op o)
+      | _, _ => (st, "bad-op")
+    | _, _ => (st, "bad-op")
+  | ["hold", k, kind, p] =>
+    match k.toNat?, parsePath p with
+    | some k, some path =>
+      if k < 16 && (kind == "incdir" || (c.root.get? path).isSome) then (st, "ok") else (st, "bad-op")
+    | _, _ => (st, "bad-op")
+  | ["check_held", k] => match k.toNat? with | some k => (st, if k < 16 then "held ok" else "bad-op") | none => (st, "bad-op")
+  | ["drop_held", _] => (st, "ok")
+  -- C01: decided by the direct oracle only (the model's writer is cubic on such chains); the theorems are
+  -- C01_parse_rebuilds (depth ≤ 1666 always rebuilt) and C01_deep_nesting_exhausts (≥ 4998 lists: "memory exhausted")
+  | ["c01deep", _, _] => (st, "not-modelled")
   | _ =>
     match c03Line st w with      -- C03 ops (block above)
     | some r => r
